@@ -9,6 +9,8 @@ import Refine.Model.Status
 import Refine.Model.ContainersSort
 import Refine.Model.Containers
 import Refine.Model.ContainersAdj
+import Refine.Model.ContainersAdjCheck
+import Refine.Model.ContainersCheck
 import Refine.Lemmas.ScalarReal
 import Refine.Lemmas.ContainersSort
 import Refine.Lemmas.ContainersHeap
@@ -16,5 +18,7 @@ import Refine.Lemmas.ContainersSortDbl
 import Refine.Lemmas.ContainersListDict
 import Refine.Lemmas.ContainersAdj
 import Refine.Lemmas.ContainersAdjSeq
+import Refine.Lemmas.ContainersAdjCheck
+import Refine.Lemmas.ContainersCheck
 import Refine.Props.C15
 import Refine.Props.C14
